@@ -38,6 +38,8 @@ GRIDS = {
     "g1": dict(T_MIN=100, NT=4, DT=250, DT_SAMPLE=250, P_MIN=-2, DELTA_P=0.5, DELTA_P_SAMPLE=0.5, NTV=33),
     "g2": dict(T_MIN=0, NT=1, DT=1000, DT_SAMPLE=1000, P_MIN=3, DELTA_P=1.25, DELTA_P_SAMPLE=2.5, NTV=25),
     "g3": dict(T_MIN=50.5, NT=2, DT=33.25, DT_SAMPLE=33.25, P_MIN=0, DELTA_P=0.1, DELTA_P_SAMPLE=1.0, NTV=41),
+    "g4": dict(T_MIN=10, NT=9, DT=25, DT_SAMPLE=50, P_MIN=0, DELTA_P=1.0, DELTA_P_SAMPLE=4.0, NTV=21),     # sampling strides differ from
+    "g5": dict(T_MIN=0, NT=7, DT=100, DT_SAMPLE=300, P_MIN=1, DELTA_P=0.5, DELTA_P_SAMPLE=0.5, NTV=25),   # the grid steps (not used by cij's writer)
 }
 SYSTEMS = {"9": "orthorhombic", "13": "monoclinic", "21": None}
 
@@ -99,7 +101,11 @@ def run_case(case):
                 viol.append(V(f"c15:file-missing:{what}", f"keyword {kw!r} ({base_name}): expected file {os.path.basename(path)} not written; directory has {sorted(os.listdir('.'))[:8]}"))
                 return None
             nfiles += 1
-            corner, rows, cols, vals, _ = parse_table(path)
+            try:
+                corner, rows, cols, vals, _ = parse_table(path)
+            except (ValueError, IndexError) as ex:
+                viol.append(V(f"c15:unparseable-table:{base_name}", f"{os.path.basename(path)} (keyword {kw!r}) is not a T x {corner_want} table: {open(path).read()[:80]!r}"))
+                return None
             if corner_want not in corner:
                 viol.append(V("c15:corner-label", f"{os.path.basename(path)}: corner label {corner!r} does not name {corner_want}"))
             if len(rows) != grid["NT"] or not label_close(rows, t_want):
@@ -233,7 +239,20 @@ def run_sequence(case):
         keys = list(c.modulus_adiabatic.keys())
         out = os.path.join(d, "out")
         os.makedirs(out)
+        import copy
         expected = {}      # file name -> (array, factor)
+        requests = copy.deepcopy(list(case["seq"]))
+        snapshot = copy.deepcopy(requests)
+        if case.get("both_bases"):
+            # the SAME request objects are first handed to the other base (a settings file may alias one list for both bases)
+            other = c.volume_base if base_name == "tp" else c.pressure_base
+            o2 = os.path.join(d, "out-other")
+            os.makedirs(o2)
+            with K.chdir(o2):
+                try:
+                    other.write_variables(requests)
+                except Exception as ex:
+                    return {"viol": [V(f"c15:sequence-raises:{type(ex).__name__}", f"{case['seq']} on the other base: {K.fmt_exc(ex)}")], "outcome": "raises"}
         for req in case["seq"]:
             cfg = {"keyword": req} if isinstance(req, str) else dict(req)
             pat, unit, what, canon = DOC[cfg["keyword"]]
@@ -248,16 +267,22 @@ def run_sequence(case):
                 expected[cfg.get("fname") or pat.format(base=base_name)] = (numpy.asarray(getattr(base, what), float), factor)
         with K.chdir(out):
             try:
-                base.write_variables(list(case["seq"]))
+                base.write_variables(requests)
             except Exception as ex:
                 return {"viol": [V(f"c15:sequence-raises:{type(ex).__name__}", f"{case['seq']}: {K.fmt_exc(ex)}")], "outcome": "raises"}
+            if requests != snapshot:
+                viol.append(V("c15:sequence:request-mutated", f"the request objects {snapshot} were changed to {requests} by writing them"))
             got = set(os.listdir("."))
             if got != set(expected):
                 viol.append(V("c15:sequence:files", f"requests {case['seq']} on {base_name}: missing {sorted(set(expected) - got)[:4]}, unexpected {sorted(got - set(expected))[:4]}"))
             for fn, (arr, factor) in expected.items():
                 if fn not in got:
                     continue
-                corner, rows, cols, vals, _ = parse_table(fn)
+                try:
+                    corner, rows, cols, vals, _ = parse_table(fn)
+                except (ValueError, IndexError):
+                    viol.append(V("c15:sequence:unparseable-table", f"requests {case['seq']} on {base_name}: {fn} is not a table"))
+                    continue
                 ref = arr[:grid["NT"], :] * factor
                 if vals.shape != ref.shape or not numpy.all(numpy.abs(vals - ref) <= 1e-7 * numpy.abs(ref)):
                     viol.append(V("c15:sequence:content", f"requests {case['seq']} on {base_name}: {fn} does not hold the values of the last request that named it"))
@@ -265,19 +290,21 @@ def run_sequence(case):
 
 
 def explore(ctx):
-    ctx.rule = ("complete product: 4 grids (incl. T_MIN>0, fractional DT, P_MIN<0, DELTA_P_SAMPLE != DELTA_P) x 3 component sets (9/13/21) x "
+    ctx.rule = ("complete product: 6 grids (incl. T_MIN>0, fractional DT, P_MIN<0, DT_SAMPLE != DT, DELTA_P_SAMPLE != DELTA_P) x 3 component sets (9/13/21) x "
                 "2 bases; for each: every keyword and alias of the writer rules (read at run time, expectations transcribed from the "
                 "documented table) written through ResultsWriter into its own directory and re-read by an independent parser; unit and "
                 "file-name overrides; write_output() with a mixed output section; all ordered sequences of <=2 (<=3 thorough) requests from a "
                 "10-letter alphabet (keywords, aliases, unit/file-name overrides of 3 rules) through ONE writer: every request leaves its file "
-                "with the content of the last request naming it; non-trivial = more than 5 files checked / sequence longer than 1")
+                "with the content of the last request naming it, request objects unchanged, also after the same objects were first written on the other base; non-trivial = more than 5 files checked / sequence longer than 1")
     ctx.assumptions = ["expected names/units transcribed from docs/usage/output.rst as rendered from the pinned writer_rules.yml", "CODATA unit factors from scipy.constants",
                        "file-name override asserted only for single-table keywords (for c_ij keywords one name cannot serve several components)"]
     cases = [{"grid": g, "ncomp": n, "base": b} for g in GRIDS for n in SYSTEMS for b in ("tp", "tv")]
     res = ctx.run(MOD, "run_case", cases, part="writer", chunksize=1)
     import itertools
     seqs = [list(sq) for L in ((1, 2) if ctx.quick else (1, 2, 3)) for sq in itertools.product(SEQ_ALPHABET, repeat=L)]
-    res += ctx.run(MOD, "run_sequence", [{"seq": sq, "base": b} for sq in seqs for b in (("tp",) if ctx.quick else ("tp", "tv"))],
+    both = [{"seq": sq, "base": b, "both_bases": True} for sq in seqs if len(sq) <= 2 and not any((r if isinstance(r, str) else r["keyword"]) in ("vs", "v_s") and False for r in sq)
+            for b in ("tp", "tv")]
+    res += ctx.run(MOD, "run_sequence", [{"seq": sq, "base": b} for sq in seqs for b in (("tp",) if ctx.quick else ("tp", "tv"))] + both,
                    part="request-sequences", chunksize=4, transitions=sum(len(sq) for sq in seqs))
     ctx.notes["files_checked"] = sum(r.get("files", 0) for r in res)
     ctx.notes["keywords"] = sorted(DOC)
